@@ -23,6 +23,8 @@ use std::time::Duration;
 
 #[path = "../c15/script.rs"]
 mod script;
+#[path = "../c15/nested.rs"]
+mod nested;
 
 const NSLOTS: usize = 3;
 /// time limit of a single operation (the machine may be heavily loaded)
@@ -1503,6 +1505,10 @@ fn worker_nested() {
     rep.emit();
 }
 
+fn nested_text(o: &nested::NOp, script: bool) -> String {
+    nested::op_text(o, script)
+}
+
 // ---------------------------------------------------------------- parent
 
 fn hang_violation(rep: &mut Report, case: &Case, op_index: Option<usize>, ended: &Ended) {
@@ -1583,6 +1589,13 @@ fn main() {
             ),
             Some("one") => worker_one(&args[3], &args[4]),
             Some("nested") => worker_nested(),
+            Some("nestedrand") => nested::worker(
+                args[3].parse().unwrap(),
+                args[4].parse().unwrap(),
+                args[5].parse().unwrap(),
+                None,
+            ),
+            Some("nestedone") => nested::worker(0, 0, 1, Some(&args[3])),
             _ => std::process::exit(64),
         },
         Some("run") => {
@@ -1615,6 +1628,44 @@ fn main() {
                     );
                 }
             }
+            // random histories over nested lists with mutable shared inner lists
+            {
+                let total_n: u64 = match tier.as_str() {
+                    "thorough" => 60_000,
+                    "search" => 10_000,
+                    _ => 3000,
+                };
+                let mut from = 0u64;
+                let mut crashes = 0;
+                while from < total_n && crashes < 3 {
+                    let n = 2000.min(total_n - from);
+                    let (ended, out) = run_worker_keep_stdout(
+                        &["nestedrand", &seed.to_string(), &from.to_string(), &n.to_string()],
+                        Duration::from_secs(900),
+                    );
+                    if matches!(ended, Ended::Exit(0, _)) {
+                        if let Some(v) = Report::parse_stdout(&out) {
+                            rep.merge_json(&v);
+                        }
+                        from += n;
+                        continue;
+                    }
+                    crashes += 1;
+                    let last = out
+                        .lines()
+                        .rev()
+                        .find_map(|l| l.strip_prefix("START "))
+                        .and_then(|s| s.trim().parse::<u64>().ok())
+                        .unwrap_or(from);
+                    let text: Vec<String> = nested::random_case(seed, last).iter().map(|(o, s)| nested_text(o, *s)).collect();
+                    rep.violation(
+                        &format!("a nested-list history did not finish: {ended:?}"),
+                        "nestedrand:hang-or-crash",
+                        json!({"nested_ops": text.join(" "), "index": last}),
+                    );
+                    from = last + 1;
+                }
+            }
             for h in handles {
                 let r = h.join().expect("range thread");
                 let v = json!({
@@ -1637,6 +1688,22 @@ fn main() {
         Some("replay") => {
             let v: serde_json::Value = serde_json::from_str(&args[2]).expect("json");
             let c = v.get("case").unwrap_or(&v);
+            if let Some(ops) = c.get("nested_ops").and_then(|o| o.as_str()) {
+                let mut rep = Report::default();
+                let (ended, out) = run_worker_keep_stdout(&["nestedone", ops], Duration::from_secs(120));
+                if let Some(v) = Report::parse_stdout(&out) {
+                    rep.merge_json(&v);
+                }
+                if !matches!(ended, Ended::Exit(0, _)) {
+                    rep.violation(
+                        &format!("the nested-list history did not finish: {ended:?}"),
+                        "nestedrand:hang-or-crash",
+                        json!({"nested_ops": ops}),
+                    );
+                }
+                rep.emit();
+                return;
+            }
             if c.get("scenario").is_some() {
                 // a nested-list scenario: run them all again, crash-isolated
                 let mut rep = Report::default();
